@@ -22,12 +22,13 @@ VARIABLES l,        \* next line
           prev,     \* the Storage event before it in the same trace (Null at trace start)
           closedB,  \* allocations closed strictly before ev
           closed,   \* allocations closed up to and including ev
-          closes    \* name -> number of successful finalize/cancel transactions
+          closes,   \* name -> number of successful finalize/cancel transactions
+          taint     \* allocations / blobbers touched by an event that bin/vcheck marked as a LISTED known finding
 
-vars == <<l, ev, prev, closedB, closed, closes>>
+vars == <<l, ev, prev, closedB, closed, closes, taint>>
 Null == [ev |-> "none"]
 
-TraceInit == l = 1 /\ ev = Null /\ prev = Null /\ closedB = {} /\ closed = {} /\ closes = <<>>
+TraceInit == l = 1 /\ ev = Null /\ prev = Null /\ closedB = {} /\ closed = {} /\ closes = <<>> /\ taint = {}
 
 IsEvent(e) == l <= Len(Trace) /\ Trace[l].ev = e /\ l' = l + 1
 
@@ -68,7 +69,7 @@ SeqSet(s) == {s[j] : j \in 1..Len(s)}
 -----------------------------------------------------------------------------
 TraceReset ==
   /\ IsEvent("Reset")
-  /\ ev' = Null /\ prev' = Null /\ closedB' = {} /\ closed' = {} /\ closes' = <<>>
+  /\ ev' = Null /\ prev' = Null /\ closedB' = {} /\ closed' = {} /\ closes' = <<>> /\ taint' = {}
 
 GoneNow(p, e) == IF p = Null THEN {} ELSE {n \in Names(p.allocs) : OpenIn(p, n) /\ ~OpenIn(e, n)}
 
@@ -81,25 +82,30 @@ TraceStorage ==
        /\ closed' = closed \cup GoneNow(IF ev.ev = "Storage" THEN ev ELSE prev, e)
        /\ closes' = IF e.class = "ok" /\ e.fn \in {"finalize_allocation", "cancel_allocation"}
                       THEN Add(closes, e.target, 1) ELSE closes
+       \* a listed known finding (known_findings.jsonl, marked by bin/vcheck) leaves the objects it touched in a
+       \* state that stays wrong for the rest of the trace: exactly those objects are exempted from the STATE
+       \* invariants of the property being checked (the defect is reported as KNOWN-FINDING, never silently)
+       /\ taint' = IF IsKnown(e) THEN taint \cup ({e.target, e.tblob} \ {""}) ELSE taint
 
 \* other families' events (Ledger "Txn" lines) do not touch the tracked state; the last Storage event stays in ev
 TraceSkip ==
   /\ l <= Len(Trace) /\ Trace[l].ev \notin {"Reset", "Storage"}
   /\ l' = l + 1
-  /\ UNCHANGED <<ev, prev, closedB, closed, closes>>
+  /\ UNCHANGED <<ev, prev, closedB, closed, closes, taint>>
 
 TraceNext == TraceReset \/ TraceStorage \/ TraceSkip
 TraceSpec == TraceInit /\ [][TraceNext]_vars
 
-IsSt == ev.ev = "Storage"
+IsSt0 == ev.ev = "Storage"
+IsSt == IsSt0 /\ ~IsKnown(ev)                        \* property invariants skip events marked as listed known findings
 IsStep == IsSt /\ prev # Null /\ ev.fn # "init"      \* a transaction with a projection before and after
 OK == ev.class = "ok"
 
 -----------------------------------------------------------------------------
 (* harness limits: not verdicts (exit 2) *)
-NoPanic == IsSt => ~ev.panic
-HarnessRange == IsSt => ~ev.harness_big
-HarnessExact == IsSt => ~ev.harness_inexact
+NoPanic == IsSt0 => ~ev.panic
+HarnessRange == IsSt0 => ~ev.harness_big
+HarnessExact == IsSt0 => ~ev.harness_inexact
 
 -----------------------------------------------------------------------------
 (* C12: an open allocation's challenge pool holds exactly the sum of the   *)
@@ -107,6 +113,7 @@ HarnessExact == IsSt => ~ev.harness_inexact
 C12_ChallengePool ==
   IsSt => \A i \in 1..Len(ev.allocs) :
     LET a == ev.allocs[i] IN
+      a.a \notin taint =>
       IF a.present
         THEN IF a.ent THEN ~a.cp_present
              ELSE a.cp_present /\ ~a.wrap /\ a.cp = SumIV(a.bas, 1)
@@ -117,10 +124,10 @@ C12_ChallengePool ==
 (* above capacity when an allocation is assigned or grown.                 *)
 C13_Allocated ==
   IsSt => \A i \in 1..Len(ev.blobs) :
-    LET b == ev.blobs[i] IN b.present => b.alloc = SumOverAllocs(ev, b.a, "size", 1)
+    LET b == ev.blobs[i] IN (b.present /\ b.a \notin taint) => b.alloc = SumOverAllocs(ev, b.a, "size", 1)
 C13_Offers ==
   IsSt => \A i \in 1..Len(ev.blobs) :
-    LET b == ev.blobs[i] IN b.sp_present => b.offers = SumOverAllocs(ev, b.a, "offer", 1)
+    LET b == ev.blobs[i] IN (b.sp_present /\ b.a \notin taint) => b.offers = SumOverAllocs(ev, b.a, "offer", 1)
 PrevSize(n, b) == IF prev # Null /\ OpenIn(prev, n) /\ HasBA(AllocIn(prev, n), b) THEN BAIn(AllocIn(prev, n), b).size ELSE 0
 C13_Capacity ==
   IsStep => \A i \in 1..Len(ev.allocs) :
